@@ -99,8 +99,16 @@ func DomFrontier(g graph.BiGraph, root int, idom []int) [][]int {
 		if len(preds) < 2 {
 			continue
 		}
+		if bdom == -1 && b != root {
+			// b is unreachable.
+			continue
+		}
 
 		for _, pred := range preds {
+			if idom[pred] == -1 && pred != root {
+				// pred is unreachable.
+				continue
+			}
 			runner := pred
 			for runner != bdom {
 				// Add b to runner's DF set.
